@@ -394,6 +394,15 @@ Theorem C11_ua_decode_rejects_only_bad_receivers : forall doa dsa l o s t unk,
                             || ((fst it =? 2) && match dsa (snd it) with ONone => true | _ => false end)) l = true.
 Proof. exact ua_loop_err. Qed.
 
+Theorem C11_ua_no_orchard_roundtrip : forall dsa l a,
+  addr_container l -> ua_try_from_ns dsa l = Ok a -> canon_on dsa (uad_s a) ->
+  uad_o a = None /\ ua_receivers a = l /\ ua_to_items a = Ok l.
+Proof. exact ua_ns_roundtrip. Qed.
+
+Theorem C11_ua_no_orchard_is_main_with_opaque_orchard : forall dsa l s t prev,
+  asc prev l -> ua_loop_ns dsa l s t [] = back_ns (ua_loop OSome dsa l None s t []).
+Proof. exact ns_bridge. Qed.
+
 (* ---------------------------------------------------------------------------------------- *)
 (** ** viewing keys in a build without `transparent-inputs` (the default of zcash_keys) *)
 
